@@ -154,6 +154,16 @@ theorem processSlot_nofuel (tbl : ClassTable) {f : Json ν → St → Except Err
   | need k =>
     simp only [processSlot]
     split <;> (intro h; cases h)
+  | oneUnless k o =>
+    simp only [processSlot]
+    split
+    · intro h; cases h
+    · split
+      · intro h; cases h
+      · rename_i v hv
+        split
+        · rename_i e he; intro h; cases h; exact hf v (hl k v hv) st he
+        · intro h; cases h
   | sub k by_ mode =>
     simp only [processSlot]
     split
